@@ -169,11 +169,14 @@ var propSpecs = []PropSpec{
 		}},
 	{ID: "C02", Pkgs: []string{"itertool"},
 		BoundsQ:     "sources: 9 constructors/conversions over <=3 symbolic ints, optionally one stage; trees: slice source of <=3 symbolic ints and 2 stages out of {Filter(x<t), Transform(x+c) with a skip/error/EOF/abort injected at a symbolic position, Join, Chain, Uniq, DropZeroValues, Buffer(n), Split(1), Channel/BufferedChannel, list conversion}; sinks: ReadOne loop (+2 reads after the end), Slice, Count, Reduce(sum), Indexed; goroutine-backed stages run under the scheduler at preemption bound 1 (trees: non-preemptive switches only)",
-		BoundsT:     "up to 3 stages",
+		BoundsT:     "sources and single stages at preemption bound 2; trees as in the quick tier (three stages do not complete within the budget)",
 		Outside:     "JSON marshal/unmarshal (reflection, strconv); deeper trees; Join/Chain placed after a faulted stage (the statement does not say whether the second source still follows); which error Close reports",
 		Assumptions: commonAssumptions,
 		Tune: func(cfg *Config, tier, entry string) {
 			cfg.Preempt = 1
+			if tier == "thorough" {
+				cfg.Preempt = 2
+			}
 			if entry == "VC02_Tree" {
 				cfg.Preempt = 0
 			}
